@@ -89,7 +89,7 @@ pub const ALPHAS: [f64; 5] = [0.0, 0.3, 0.42, 0.55, 0.6];
 pub fn run(tier: Tier) -> i32 {
     let rep = Report::new("C06", tier, "model_checking");
     let nfreq = tier.pick(33usize, 257usize);
-    rep.set_rule("SCOPE: lattice of stationary mel-cepstra: vector lengths {2,3,4,5,10,25,35,40} x alpha {0,.3,.42,.55,.6} x c0 {-1,0,2} x shape patterns (each single coefficient +-, each adjacent pair, full {-1,0,1} product for length<=4) scaled to max|log H/K| in {0.5,1,2}; real Vocoder pulse response at F0=20Hz on a fresh vocoder, and on a stride of the lattice the 3rd/4th frame of a run A,B,B,B (stationary after a change of gain and shape); oracle = DFT log-magnitude vs sum c_m cos(m w~) within 0.01 Np at every grid frequency; distinct = distinct (length, alpha, cepstrum); non-trivial = shape != 0");
+    rep.set_rule("SCOPE: lattice of stationary mel-cepstra: vector lengths {2,3,4,5,10,25,35,40} x alpha {0,.3,.42,.55,.6} x c0 {-1,0,2} x shape patterns (each single coefficient +-, each adjacent pair, full {-1,0,1} product for length<=4) scaled to max|log H/K| in {0.5,1,2}; real Vocoder pulse response at F0=20Hz on a fresh vocoder, and on a stride of the lattice the last two frames of a run A,B,B,B (stationary after a change of gain and shape) and, sparser, of slow glides from A to B over 300 and 2500 frames followed by B,B,B; oracle = DFT log-magnitude vs sum c_m cos(m w~) within 0.01 Np at every grid frequency; distinct = distinct (length, alpha, cepstrum); non-trivial = shape != 0");
     rep.assume("cepstra off the lattice and |log H/K| > 2 are not explored; the digital filter does not depend on the nominal sampling rate, which is raised (8k..2M) only to lengthen T0 until the truncated tail is < 1e-7 of the peak");
     let mut cases: Vec<(usize, f64, f64, f64, Vec<f64>)> = Vec::new();
     let lens: Vec<usize> = if tier == Tier::Thorough { (2..=40).collect() } else { LENS.to_vec() };
@@ -186,40 +186,55 @@ pub fn run(tier: Tier) -> i32 {
             }
             let rate = 32000usize;
             let t0 = rate / 20;
-            let (a2, b2) = (a.clone(), b.clone());
-            let (al, ln) = (*alpha, *len);
-            let r = catch(move || {
-                let mut v = Vocoder::new(ln, 0, 0, false, rate, al, 0.0, 1.0, t0);
-                let mut out = Vec::new();
-                for f in 0..4 {
-                    let mut buf = vec![0.0; t0];
-                    v.synthesize(20f64.ln(), if f == 0 { &a2 } else { &b2 }, &[], &mut buf);
-                    out.push(buf);
+            // histories that end in B,B: the abrupt change A,B,B,B and, on a sparser stride, slow linear glides from A to B
+            // (anything that remembers earlier frames and refreshes only on "large" changes shows up there)
+            let mut seqs: Vec<(String, Vec<Vec<f64>>)> = vec![("A,B,B,B".to_string(), vec![a.clone(), b.clone(), b.clone(), b.clone()])];
+            if i % 24 == 0 {
+                for n in [300usize, 2500] {
+                    let mut fr: Vec<Vec<f64>> = (0..n).map(|f| a.iter().zip(&b).map(|(x, y)| x + (y - x) * f as f64 / n as f64).collect()).collect();
+                    fr.extend([b.clone(), b.clone(), b.clone()]);
+                    seqs.push((format!("a glide from A to B over {} frames, then B,B,B", n), fr));
                 }
-                out
-            });
-            rep.eval(1);
-            after_change.fetch_add(1, Ordering::Relaxed);
-            let rp = json!({"vector_length": len, "alpha": alpha, "frames": [a, b.clone(), b.clone(), b.clone()], "f0_hz": 20, "measure": "frames 3 and 4"});
-            match r {
-                Err(p) => rep.violation(format!("panic@{}", site_of(&p)), p, rp),
-                Ok(fr) => {
-                    let s = (t0 as f64).sqrt();
-                    for fi in [2usize, 3] {
-                        let h: Vec<f64> = fr[fi][..t0 - 2].iter().map(|x| x / s).collect();
-                        let peak = h.iter().fold(0.0f64, |x, y| x.max(y.abs()));
-                        let tail = h[h.len() - h.len() / 20..].iter().fold(0.0f64, |x, y| x.max(y.abs())) / peak.max(1e-300);
-                        if !(tail < 1e-6) {
-                            continue; // too slowly decaying to measure at this frame length: covered by the single-frame part
+            }
+            for (what, frames) in seqs {
+                let (al, ln) = (*alpha, *len);
+                let nfr = frames.len();
+                let fr2 = frames.clone();
+                let r = catch(move || {
+                    let mut v = Vocoder::new(ln, 0, 0, false, rate, al, 0.0, 1.0, t0);
+                    let mut out = Vec::new();
+                    for (f, c) in fr2.iter().enumerate() {
+                        let mut buf = vec![0.0; t0];
+                        v.synthesize(20f64.ln(), c, &[], &mut buf);
+                        if f + 2 >= fr2.len() {
+                            out.push(buf);
                         }
-                        let mut err = 0.0f64;
-                        for w in &grid {
-                            rep.cmp(1);
-                            err = err.max((logmag(&h, *w) - mcep_logspec(&b, *alpha, *w)).abs());
-                        }
-                        if !(err <= 0.01) {
-                            rep.violation("spectrum-after-change", format!("frame {} of A,B,B,B: log-magnitude deviates {:.4} Np from the spectrum of the (stationary) cepstrum B (len {}, alpha {})", fi + 1, err, len, alpha), rp.clone());
-                            break;
+                    }
+                    out
+                });
+                rep.eval(1);
+                after_change.fetch_add(1, Ordering::Relaxed);
+                let rp = json!({"vector_length": len, "alpha": alpha, "history": what, "A": a, "B": b, "frames": nfr, "f0_hz": 20, "measure": "the last two frames"});
+                match r {
+                    Err(p) => rep.violation(format!("panic@{}", site_of(&p)), p, rp),
+                    Ok(fr) => {
+                        let s = (t0 as f64).sqrt();
+                        for fi in [0usize, 1] {
+                            let h: Vec<f64> = fr[fi][..t0 - 2].iter().map(|x| x / s).collect();
+                            let peak = h.iter().fold(0.0f64, |x, y| x.max(y.abs()));
+                            let tail = h[h.len() - h.len() / 20..].iter().fold(0.0f64, |x, y| x.max(y.abs())) / peak.max(1e-300);
+                            if !(tail < 1e-6) {
+                                continue; // too slowly decaying to measure at this frame length: covered by the single-frame part
+                            }
+                            let mut err = 0.0f64;
+                            for w in &grid {
+                                rep.cmp(1);
+                                err = err.max((logmag(&h, *w) - mcep_logspec(&b, *alpha, *w)).abs());
+                            }
+                            if !(err <= 0.01) {
+                                rep.violation("spectrum-after-change", format!("frame {} of {}: log-magnitude deviates {:.4} Np from the spectrum of the (stationary) cepstrum B (len {}, alpha {})", nfr - 1 + fi, what, err, len, alpha), rp.clone());
+                                break;
+                            }
                         }
                     }
                 }
